@@ -1449,7 +1449,7 @@ func genC05History(c *ctx) {
 		if c05NoDrag {
 			break
 		}
-		dh := c05DragHistories()
+		dh := append(c05DragHistories(), c05WindowHistories()...)
 		keep := map[int]bool{}
 		for _, k := range c.rng.Perm(len(c05Keys))[:4] {
 			keep[k] = true
@@ -1522,7 +1522,15 @@ func genC05History(c *ctx) {
 			c.violate("probe-after:"+j.h.name, "after a session that ended with '"+j.h.name+"' the wrapper is not transparent again",
 				fmt.Sprintf("options=%04b seed=%d: %s", j.oi, j.seed, j.after))
 		}
-		if strings.HasPrefix(j.scen, "REDISPLAY: ") {
+		if j.scen == "LATE" {
+			c.count("history-inconclusive:" + j.h.name)
+			j.scen = ""
+		}
+		if strings.HasPrefix(j.scen, "WINDOW: ") {
+			// DIRECT ORACLE: detection comes before the drop of the 200 ms after the client's ctrl-C
+			c.violate("interrupt-window:"+strings.TrimPrefix(j.h.name, "window:"), "server output in the 200 ms after the client's own ctrl-C: a fresh trigger must start exactly one transfer and be shown disarmed, other output of the window is hidden, afterwards everything passes",
+				fmt.Sprintf("options=%04b seed=%d: %s", j.oi, j.seed, strings.TrimPrefix(j.scen, "WINDOW: ")))
+		} else if strings.HasPrefix(j.scen, "REDISPLAY: ") {
 			// DIRECT ORACLE: an old trigger displayed again is output like any other
 			c.violate("redisplayed-trigger:"+j.h.name, "a trigger of a finished transfer that is displayed again is not passed through untouched (it starts a new transfer)",
 				fmt.Sprintf("options=%04b seed=%d SetAffectedByWindows(true): %s", j.oi, j.seed, strings.TrimPrefix(j.scen, "REDISPLAY: ")))
